@@ -124,13 +124,13 @@ func (a *AliasMangler) Unmangle(sf reflect.StructField, fvs []FieldValueTuple) (
 		return reflect.Value{}, fmt.Errorf("expected 1 or 2 tuples, got %d", len(fvs))
 	}
 
-	if !fvs[0].Value.IsNil() && !fvs[1].Value.IsNil() {
+	if !aliasUnset(fvs[0].Value) && !aliasUnset(fvs[1].Value) {
 		return reflect.Value{}, fmt.Errorf("both alias and original set for field %q", sf.Name)
 	}
 
 	// return the first one that isn't nil
 	for _, fv := range fvs {
-		if !fv.Value.IsNil() {
+		if !aliasUnset(fv.Value) {
 			return fv.Value, nil
 		}
 	}
@@ -138,6 +138,21 @@ func (a *AliasMangler) Unmangle(sf reflect.StructField, fvs []FieldValueTuple) (
 	// if we made it this far, they were both nil, which is fine -- just return
 	// one of them.
 	return fvs[0].Value, nil
+}
+
+// aliasUnset indicates whether v is unset: nil for nil-able kinds, and the
+// zero-value for everything else (fields of structs inside slices and arrays
+// are reached by recursion, but are not pointerified).
+func aliasUnset(v reflect.Value) bool {
+	if isNil(v) {
+		return true
+	}
+	switch v.Kind() {
+	case reflect.Pointer, reflect.Chan, reflect.Slice, reflect.Map, reflect.Func, reflect.Interface:
+		return false
+	default:
+		return v.IsZero()
+	}
 }
 
 // ShouldRecurse is called after Mangle for each field so nested struct
